@@ -426,7 +426,7 @@ def r2_sqlite(ctx: Context) -> None:
 # ---------------------------------------------------------------------------------------------- R3
 READ_CSV_OK = {"float_precision": ("'round_trip'",), "index_col": ("0", "None", "False"), "header": ("0", "'infer'"), "sep": ("','",), "encoding": None,
                "engine": ("'c'",), "dtype": ("float", "np.float64", "None"), "low_memory": None, "memory_map": None}
-READ_CSV_BAD = {"na_filter", "converters", "decimal", "thousands", "nrows", "skiprows", "usecols", "skipfooter", "na_values", "keep_default_na",
+READ_CSV_BAD = {"on_bad_lines", "error_bad_lines", "names", "na_filter", "converters", "decimal", "thousands", "nrows", "skiprows", "usecols", "skipfooter", "na_values", "keep_default_na",
                 "true_values", "false_values", "comment", "dtype_backend", "chunksize", "iterator"}
 
 
@@ -453,6 +453,20 @@ def r3_text_path(ctx: Context, pl: Plumbing) -> None:
                           f"read_csv option {k.arg}={src(k.value)} may alter the restored values", pl.load, c)
             else:
                 raise AnalysisError(f"{pl.load.loc(c)}: read_csv option `{k.arg}` is not in the rule table; cannot decide whether values are preserved")
+    # the table that was read is the table that is used: no repair / filtering / rounding of the frame between read_csv and the returned arrays
+    REPAIR = {"dropna", "fillna", "drop_duplicates", "round", "clip", "interpolate", "query", "head", "tail", "sample", "sort_values", "ffill", "bfill", "replace", "where", "mask", "truncate"}
+    for f_ in {pl.load}:
+        for c in calls_in(f_.node, scope_only=False):
+            if isinstance(c.func, ast.Attribute) and c.func.attr in REPAIR:
+                root = c.func.value
+                while isinstance(root, (ast.Attribute, ast.Subscript, ast.Call)):
+                    root = root.func.value if isinstance(root, ast.Call) and isinstance(root.func, ast.Attribute) else (root.value if not isinstance(root, ast.Call) else None)
+                    if root is None:
+                        break
+                if isinstance(root, ast.Name) and any(isinstance(s_, (ast.Assign, ast.AnnAssign)) and s_.value is not None and any(isinstance(x, ast.Call) and (dotted(x.func) or "").endswith("read_csv") for x in ast.walk(s_.value))
+                                                      and any(isinstance(t, ast.Name) and t.id == root.id for t in ([s_.target] if isinstance(s_, ast.AnnAssign) else s_.targets)) for s_ in walk_scope(f_.node)):
+                    ctx.fail("R3.csv-read", f"load_calibrator_state:frame:{c.func.attr}", f"`{' '.join(src(c).split())[:70]}` alters the table read from the checkpoint (rows with a NaN loss are legitimate records): "
+                             "the restored history is not the saved one", f_, c)
     writes = [e for e in pl.save_effects() if e.api == "to_csv"]
     for e in writes:
         c = e.node
